@@ -111,6 +111,14 @@ var mutOps = []mutOp{
 	{"C16", "C16.R3", "token/token.go", `\tinterning\[\*t\] = t\n`, "\tif len(interning) > 1<<16 {\n\t\tResetInterning()\n\t}\n\tinterning[*t] = t\n", "interning table reset while lexing"},
 	{"C18", "C18.R4", "eval/eval_api.go", `func \(s \*State\) SaveGlobals\(w io\.Writer\) \(int, error\) \{\n\treturn s\.env\.SaveGlobals\(w, s\.MaxValueLen\)`, "func (s *State) SaveGlobals(w io.Writer) (n int, err error) {\n\tdefer func() { err = nil }()\n\treturn s.env.SaveGlobals(w, s.MaxValueLen)", "deferred closure masks the write error"},
 	{"C19", "C19.R2", "object/state.go", `\t\t\treturn old\n\t\t\}\n\t\}\n\tif IsExtraFunction`, "\t\t}\n\t}\n\tif IsExtraFunction", "an equal value overwrites the constant again"},
+	{"C01", "C01.R13", "eval/eval.go", `(?s)\tcase token\.ERROR, token\.PRINT, token\.PRINTLN, token\.LOG:\n\t\treturn s\.evalPrintLogError\(node\)\n\tdefault:\n\t\}`, "\tdefault:\n\t}\n\tif minV > 0 {\n\t\tif pre := s.evalInternal(node.Parameters[0]); pre.Type() == object.ERROR && t != token.LOG && t != token.CATCH {\n\t\t\treturn pre\n\t\t}\n\t}\n\tswitch t {\n\tcase token.ERROR, token.PRINT, token.PRINTLN, token.LOG:\n\t\treturn s.evalPrintLogError(node)\n\tdefault:\n\t}", "first argument of print evaluated before the printer evaluates all of them"},
+	{"C01", "C01.R14", "eval/eval.go", `left := object\.Value\(s\.Eval\(node\.Left\)\)`, "left := s.Eval(node.Left)", "left operand kept as a register/reference while the right one runs"},
+	{"C01", "C01.R14", "eval/eval.go", `s\.evalExpressions\(node\.Elements, true\)`, "s.evalExpressions(node.Elements, false)", "array elements dereferenced after the whole list"},
+	{"C04", "C04.R3", "extensions/extension.go", `(?s)Help:      "in seconds",\n\t\tDontCache: true,[^\n]*\n`, "Help:      \"in seconds\",\n", "sleep cacheable again"},
+	{"C04", "C04.R4", "object/object.go", `(?s)case INTEGER, BOOLEAN, NIL, STRING, REGISTER:\n\t\treturn true\n\tcase FLOAT:.*?return f != 0 \|\| !math\.Signbit\(f\)`, "case INTEGER, FLOAT, BOOLEAN, NIL, STRING, REGISTER:\n\t\t_ = math.Signbit\n\t\treturn true", "every float accepted as a key"},
+	{"C05", "C05.R13", "eval/eval.go", `(?s)if in\.Type\(\) == token\.QUOTE && len\(in\.Parameters\) == 1 \{.*?if found \{\n\t\t\t\treturn nil, false\n\t\t\t\}\n\t\t\}`, "", "quote no longer aborts the register rewrite"},
+	{"C14", "C14.R10", "object/state.go", `if f\.Name != nil && f\.Name\.Literal\(\) == k \{`, "if f.Name != nil {", "definition form written for aliases too"},
+	{"C15", "C15.R6", "parser/parser.go", `(?s)if p\.curTokenIs\(token\.RPAREN\) && p\.peekTokenIs\(token\.EOL\) \{[^\n]*\n\t\tp\.continuationNeeded = true\n\t\treturn nil\n\t\}\n`, "", "() at the end of a line is a parse error again"},
 	{"C01", "C01.R12", "eval/eval.go", `oerr := s\.env\.Set\(name\.Literal\(\), fn\)`, "oerr := s.env.CreateOrSet(name.Literal(), fn, true)", "named function bound as a forced local"},
 	{"C02", "C02.R5", "ast/ast.go", `ps\.last != "\}" && ps\.last != "\]"`, `ps.last != "}" && ps.last != "]" && ps.last != ")"`, "compact separator also dropped after )"},
 	{"C03", "C03.R7", "parser/parser.go", `Statements: \[\]ast\.Node\{p\.parseIfExpression\(\)\}`, "Statements: []ast.Node{p.parseStatement()}", "else-if alternative parsed as a statement"},
